@@ -367,6 +367,10 @@ class Recon:
             if ct is not None:
                 return ("inst", ct.name, ("p", ctx.qual, d.index), ct.layout_key)
             return ("p", ctx.qual, d.index)
+        if k == "attr-entry":
+            if ctx.ci is None:
+                return S.unk("attr-entry:" + d.name)
+            return self.attr(("self", ctx.ci.key), d.name.split(".", 1)[1], ctx, depth + 1)
         if k in ("assign", "walrus"):
             if "." in d.name and ctx.ci is not None and _is_empty_container(d.value):
                 return ("attr", ("self", ctx.ci.key), d.name.split(".", 1)[1])
@@ -615,6 +619,11 @@ class Recon:
                     val = self._e(mctx, v, node, {}, False, depth + 1)
                 if tgt_index is not None:
                     val = val[1][tgt_index] if val[0] == "tuple" and tgt_index < len(val[1]) else ("sub", val, S.C(tgt_index))
+                if m.name != "__init__" and S.contains(val, lambda x: isinstance(x, tuple) and len(x) == 3 and x[0] == "p"
+                                                       and x[1] == mctx.qual and isinstance(x[2], int) and x[2] >= 1):
+                    # stored by an ordinary method from that call's own arguments: what a later reader finds depends on the
+                    # history of calls, it is not a function of the object's construction - keep the attribute opaque
+                    val = ("attr", ("self", classkey), name)
                 vals.append(val)
                 gate_items.append((m, stmt, val))
             if vals:
